@@ -111,6 +111,29 @@ func c05More() []*Scenario {
 				},
 				func(s *harness.SchedWorld) { s.MutSet("m", bs("b"), 5, bs("b1")); s.MutDelete("m", bs("a")) },
 			}},
+		{Name: "S13-stats", Desc: "mutator [Set b, Delete a] || reader [AllocStats + Stats, Get c, AllocStats]: the statistics calls take the free-list locks that the mutator's release path also takes",
+			Setup: setup3(false),
+			Threads: []func(s *harness.SchedWorld){
+				func(s *harness.SchedWorld) { s.MutSet("m", bs("b"), 5, bs("b1")); s.MutDelete("m", bs("a")) },
+				func(s *harness.SchedWorld) { s.RStats("m"); s.RGet("m", bs("c")); s.RStats("m") },
+			}},
+		{Name: "S14-snapshot-flush", Desc: "a snapshot is open; flusher [Flush] || mutator [Set b, Set d, Delete a, Set c]: afterwards the snapshot must still read the version it was taken on (a pin released on the wrong version shows here)",
+			Setup: func(s *harness.SchedWorld) {
+				s.AddColl("m")
+				s.SeqSet("m", bs("a"), 2, bs("a0"))
+				s.SeqSet("m", bs("c"), 3, bs("c0"))
+				s.SeqSet("m", bs("e"), 1, bs("e0"))
+				s.SeqSnapshot()
+			},
+			Threads: []func(s *harness.SchedWorld){
+				func(s *harness.SchedWorld) { s.FFlush() },
+				func(s *harness.SchedWorld) {
+					s.MutSet("m", bs("b"), 5, bs("b1"))
+					s.MutSet("m", bs("d"), 4, bs("d1"))
+					s.MutDelete("m", bs("a"))
+					s.MutSet("m", bs("c"), 3, bs("c1"))
+				},
+			}},
 		{Name: "S8-flushes", Desc: "mutator [Set b, Delete a] || flusher [Flush, Flush]",
 			Setup: setup3(false),
 			Threads: []func(s *harness.SchedWorld){
